@@ -83,6 +83,40 @@ pub open spec fn is_interleaved<O>(tg: Seq<O>, fs: Seq<usize>, fv: Seq<O>, rs: S
     &&& (forall|i: int, j: int| 0 <= i < fs.len() && 0 <= j < rs[i] ==> #[trigger] tg[seg_at(s2, i, fs[i] + j)] == rv[psum(rs, i) + j])
 }
 
+/// r is THE interleaving diagram of two segmented arrays (block sizes fs, rs; values fv, rv): a spider on the nodes fv ++ rv
+/// whose source leg is the identity and whose target leg lists the blocks in the order a_0 b_0 a_1 b_1 ... (exact tables)
+pub open spec fn is_interleave_of<O, A>(r: OpenHypergraph<O, A>, fs: Seq<usize>, fv: Seq<O>, rs: Seq<usize>, rv: Seq<O>) -> bool {
+    let n = fs.len() as int; let k = kseq(fs + rs, transpose_seq(2, n)); let len = fv.len() + rv.len();
+    &&& r.wf() && r.h.x@.len() == 0 && r.h.w@ == fv + rv
+    &&& r.s.table@.len() == len && (forall|i: int| 0 <= i < len ==> r.s.table@[i] == i)
+    &&& r.t.table@.len() == total(k)
+    &&& (forall|m: int, j: int| 0 <= m < 2 * n && 0 <= j < k[m] ==> r.t.table@[#[trigger] seg_at(k, m, j)] == psum(fs + rs, transpose_seq(2, n)[m] as int) + j)
+}
+
+/// two interleaving diagrams of the same arrays are the same diagram (no open choice is involved)
+pub proof fn lemma_interleave_unique<O, A>(r1: OpenHypergraph<O, A>, r2: OpenHypergraph<O, A>, fs: Seq<usize>, fv: Seq<O>, rs: Seq<usize>, rv: Seq<O>)
+    requires is_interleave_of(r1, fs, fv, rs, rv), is_interleave_of(r2, fs, fv, rs, rv), fs.len() == rs.len(), 2 * fs.len() <= usize::MAX
+    ensures r1.s.table@ =~= r2.s.table@, r1.t.table@ =~= r2.t.table@, r1.h.w@ == r2.h.w@, r1.h.x@ =~= r2.h.x@,
+        node_iso(r1, r2, id_seq(r1.h.w@.len() as int))
+{
+    let n = fs.len() as int; let k = kseq(fs + rs, transpose_seq(2, n));
+    assert(2 * n == n * 2) by (nonlinear_arith);
+    assert forall|m: int| 0 <= m < r1.t.table@.len() implies r1.t.table@[m] == r2.t.table@[m] by {
+        let (p, j) = lemma_seg_find(k, m);
+        assert(r1.t.table@[seg_at(k, p, j)] == r2.t.table@[seg_at(k, p, j)]);
+    }
+    lemma_no_edges(r1); lemma_no_edges(r2);
+    let phi = id_seq(r1.h.w@.len() as int);
+    assert forall|i: int| 0 <= i < r1.t.table@.len() implies (#[trigger] r2.t.table@[i]) == phi[r1.t.table@[i] as int] by { assert(r1.t.table@[i] < r1.t.target); }
+    assert(r1.h.s.sources.table@ =~= r2.h.s.sources.table@ && r1.h.t.sources.table@ =~= r2.h.t.sources.table@);
+    let nn = r1.h.w@.len() as int;
+    assert(in_bounds(phi, nn) && injective(phi));
+    assert forall|v: int| 0 <= v < nn implies r2.h.w@[(#[trigger] phi[v]) as int] == r1.h.w@[v] by { }
+    assert forall|i: int| 0 <= i < r1.s.table@.len() implies (#[trigger] r2.s.table@[i]) == phi[r1.s.table@[i] as int] by { assert(r1.s.table@[i] == i); }
+    assert(r2.h.s.values.table@.len() == 0 && r2.h.t.values.table@.len() == 0 && r1.h.s.values.table@.len() == 0 && r1.h.t.values.table@.len() == 0);
+    assert(r1.h.x@ =~= r2.h.x@);
+}
+
 pub proof fn lemma_interleaved_unique<O>(t1: Seq<O>, t2: Seq<O>, fs: Seq<usize>, fv: Seq<O>, rs: Seq<usize>, rv: Seq<O>)
     requires is_interleaved(t1, fs, fv, rs, rv), is_interleaved(t2, fs, fv, rs, rv), forall|i: int| 0 <= i < fs.len() ==> fs[i] + rs[i] <= usize::MAX
     ensures t1 =~= t2
@@ -109,7 +143,8 @@ fn(OP, 'interleave_blocks', kind='free', status='P', props=['C14', 'C05'], where
                 r.t.table@.len() == a.values@.len() + b.values@.len() && total(s2) == a.values@.len() + b.values@.len()
                 && (forall|i: int, j: int| 0 <= i < fs.len() && 0 <= j < fs[i] ==> r.tgt_type()[#[trigger] seg_at(s2, i, j)] == a.values@[psum(fs, i) + j])
                 && (forall|i: int, j: int| 0 <= i < fs.len() && 0 <= j < rs[i] ==> #[trigger] r.tgt_type()[seg_at(s2, i, fs[i] + j)] == b.values@[psum(rs, i) + j]) })'''),
-            ('C14.interleave-target-pred', 'is_interleaved(r.tgt_type(), a.sources.table@, a.values@, b.sources.table@, b.values@)')],
+            ('C14.interleave-target-pred', 'is_interleaved(r.tgt_type(), a.sources.table@, a.values@, b.sources.table@, b.values@)'),
+            ('C14.interleave-exact', 'is_interleave_of(r, a.sources.table@, a.values@, b.sources.table@, b.values@)')],
    proofs=[('before:let t = ab', '''lemma_seg_wf_sources(ab.sources, ab.values@.len());
             let n = a.sources.table@.len() as int;
             assert(2 * n == n * 2 && 2 * n == n + n) by (nonlinear_arith);
@@ -131,6 +166,36 @@ fn(OP, 'interleave_blocks', kind='free', status='P', props=['C14', 'C05'], where
             }
             lemma_interleave_values(fs, rs, a.values@, b.values@, s2, tg);''')])
 
+raw(r'''
+/// r is c with its legs re-bent: the first na inputs and the last ma outputs of c become the inputs, the first nb outputs and the
+/// last mb inputs become the outputs; the hypergraph is untouched (the postcondition of partial_dagger as one predicate)
+pub open spec fn is_partial_dagger<O, A>(r: OpenHypergraph<O, A>, c: OpenHypergraph<O, A>, na: int, nb: int, ma: int, mb: int) -> bool {
+    &&& r.wf()
+    &&& r.h.w@ == c.h.w@ && r.h.x@ == c.h.x@
+    &&& r.h.s.values.table@ == c.h.s.values.table@ && r.h.t.values.table@ == c.h.t.values.table@
+    &&& r.h.s.sources.table@ == c.h.s.sources.table@ && r.h.t.sources.table@ == c.h.t.sources.table@
+    &&& r.s.table@.len() == na + ma && r.t.table@.len() == nb + mb
+    &&& (forall|i: int| 0 <= i < na ==> r.s.table@[i] == c.s.table@[i])
+    &&& (forall|i: int| na <= i < na + ma ==> r.s.table@[i] == c.t.table@[nb + (i - na)])
+    &&& (forall|i: int| 0 <= i < nb ==> r.t.table@[i] == c.t.table@[i])
+    &&& (forall|i: int| nb <= i < nb + mb ==> r.t.table@[i] == c.s.table@[na + (i - nb)])
+}
+
+/// re-bending the legs respects isomorphism (same node bijection)
+pub proof fn lemma_partial_dagger_iso<O, A>(c: OpenHypergraph<O, A>, c2: OpenHypergraph<O, A>, r: OpenHypergraph<O, A>, r2: OpenHypergraph<O, A>, na: int, nb: int, ma: int, mb: int, phi: Seq<usize>)
+    requires node_iso(c, c2, phi), is_partial_dagger(r, c, na, nb, ma, mb), is_partial_dagger(r2, c2, na, nb, ma, mb),
+        0 <= na && 0 <= nb && 0 <= ma && 0 <= mb, c.s.table@.len() == na + mb, c.t.table@.len() == nb + ma,
+    ensures node_iso(r, r2, phi)
+{
+    assert forall|i: int| 0 <= i < r.s.table@.len() implies (#[trigger] r2.s.table@[i]) == phi[r.s.table@[i] as int] by {
+        if i < na { assert(c2.s.table@[i] == phi[c.s.table@[i] as int]); } else { assert(c2.t.table@[nb + (i - na)] == phi[c.t.table@[nb + (i - na)] as int]); }
+    }
+    assert forall|i: int| 0 <= i < r.t.table@.len() implies (#[trigger] r2.t.table@[i]) == phi[r.t.table@[i] as int] by {
+        if i < nb { assert(c2.t.table@[i] == phi[c.t.table@[i] as int]); } else { assert(c2.s.table@[na + (i - nb)] == phi[c.s.table@[na + (i - nb)] as int]); }
+    }
+}
+''')
+
 fn(OP, 'partial_dagger', kind='free', status='P', props=['C14', 'C05'], where_add='O: Clone, A: Clone',
    requires=['c.wf()', 'c.s.table@.len() == fa.values@.len() + rb.values@.len()', 'c.t.table@.len() == fb.values@.len() + ra.values@.len()',
              'small(fa.values@.len())', 'small(fb.values@.len())', 'small(ra.values@.len())', 'small(rb.values@.len())'],
@@ -146,7 +211,8 @@ fn(OP, 'partial_dagger', kind='free', status='P', props=['C14', 'C05'], where_ad
                 && (forall|i: int| nb <= i < nb + mb ==> r.t.table@[i] == c.s.table@[na + (i - nb)]) })'''),
             ('C14.partial_dagger-type', '''lawful_clone::<O>() ==> ({ let na = fa.values@.len() as int; let nb = fb.values@.len() as int; let ma = ra.values@.len() as int; let mb = rb.values@.len() as int;
                 r.src_type() =~= c.src_type().subrange(0, na) + c.tgt_type().subrange(nb, nb + ma)
-                && r.tgt_type() =~= c.tgt_type().subrange(0, nb) + c.src_type().subrange(na, na + mb) })''')])
+                && r.tgt_type() =~= c.tgt_type().subrange(0, nb) + c.src_type().subrange(na, na + mb) })'''),
+            ('C14.partial_dagger-pred', 'lawful_clone::<O>() && lawful_clone::<A>() ==> is_partial_dagger(r, *c, fa.values@.len() as int, fb.values@.len() as int, ra.values@.len() as int, rb.values@.len() as int)')])
 
 # ---------------------------------------------------------------------------------------------
 # Optic::map_object: the object map of the optic is the block-wise concatenation F(A) ++ R(A)  (C14 typing)
@@ -375,7 +441,7 @@ pub open spec fn optic_pre<F: Functor<O1, A1, O2, A2>, R: Functor<O1, A1, O2, A2
 }
 ''', tag='T:Optic-residual')
 
-fn(OP, 'map_operations', trait='Functor', self_ty='Optic', status='P', props=['C14', 'C05'], rename='optic_map_operations',
+fn(OP, 'map_operations', trait='Functor', self_ty='Optic', status='P', props=['C14', 'C05'], rename='optic_map_operations', attrs=['#[verifier::rlimit(240)]'],
    rules={'self_rename': ['this', '&Optic<F, R, O1, A1, O2, A2>']},
    generics_add=['F: Functor<O1, A1, O2, A2>, R: Functor<O1, A1, O2, A2>, O1: Clone, A1: Clone, O2: Clone + PartialEq, A2: Clone'],
    requires=['optic_pre(*this, ops)', 'lawful_clone::<O1>()', 'lawful_clone::<A1>()', 'lawful_clone::<O2>()', 'lawful_clone::<A2>()', 'lawful_eq::<O2>()'],
@@ -529,5 +595,75 @@ pub proof fn lemma_optic_pre_witness<O: Clone + PartialEq, A: Clone>(this: Optic
         let s2 = Seq::new(0 as nat, |k: int| 0usize);
         assert(total(s2) == 0);
     }
+}
+''')
+
+raw(r'''
+// ---------------------------------------------------------------------------------------------
+// C20 for optic application: the image of a batch of operations is determined up to isomorphism by the images of the forward
+// and reverse functors -- whatever coequalizers the five compositions pick (on any backend).  The interleaving diagrams,
+// identities and daggers involve no open choice (lemma_interleave_unique), so they are shared between the two runs below.
+// ---------------------------------------------------------------------------------------------
+pub proof fn lemma_node_iso_refl<O, A>(x: OpenHypergraph<O, A>)
+    requires x.wf()
+    ensures node_iso(x, x, id_seq(x.h.w@.len() as int))
+{
+    let phi = id_seq(x.h.w@.len() as int);
+    assert forall|i: int| 0 <= i < x.h.s.values.table@.len() implies (#[trigger] x.h.s.values.table@[i]) == phi[x.h.s.values.table@[i] as int] by { assert(x.h.s.values.table@[i] < x.h.s.values.target); }
+    assert forall|i: int| 0 <= i < x.h.t.values.table@.len() implies (#[trigger] x.h.t.values.table@[i]) == phi[x.h.t.values.table@[i] as int] by { assert(x.h.t.values.table@[i] < x.h.t.values.target); }
+    assert forall|i: int| 0 <= i < x.s.table@.len() implies (#[trigger] x.s.table@[i]) == phi[x.s.table@[i] as int] by { assert(x.s.table@[i] < x.s.target); }
+    assert forall|i: int| 0 <= i < x.t.table@.len() implies (#[trigger] x.t.table@[i]) == phi[x.t.table@[i] as int] by { assert(x.t.table@[i] < x.t.target); }
+}
+
+pub proof fn lemma_optic_image_unique<O, A>(
+        fwd: OpenHypergraph<O, A>, fwd2: OpenHypergraph<O, A>, al: Seq<usize>, rev: OpenHypergraph<O, A>, rev2: OpenHypergraph<O, A>, be: Seq<usize>,
+        fi: OpenHypergraph<O, A>, rc: OpenHypergraph<O, A>, ifb: OpenHypergraph<O, A>, irb: OpenHypergraph<O, A>, lhs: OpenHypergraph<O, A>, rhs: OpenHypergraph<O, A>,
+        c1: OpenHypergraph<O, A>, c1p: OpenHypergraph<O, A>, l1: OpenHypergraph<O, A>, l1p: OpenHypergraph<O, A>,
+        d1: OpenHypergraph<O, A>, d1p: OpenHypergraph<O, A>, r1: OpenHypergraph<O, A>, r1p: OpenHypergraph<O, A>,
+        c: OpenHypergraph<O, A>, cp: OpenHypergraph<O, A>, d: OpenHypergraph<O, A>, dp: OpenHypergraph<O, A>,
+        e: OpenHypergraph<O, A>, ep: OpenHypergraph<O, A>, o: OpenHypergraph<O, A>, op: OpenHypergraph<O, A>,
+        na: int, nb: int, ma: int, mb: int) -> (psi: Seq<usize>)
+    requires
+        // the two functor images agree up to isomorphism
+        fwd.wf() && fwd2.wf() && rev.wf() && rev2.wf() && node_iso(fwd, fwd2, al) && node_iso(rev, rev2, be),
+        // the choice-free parts
+        fi.wf() && rc.wf() && ifb.wf() && irb.wf() && lhs.wf() && rhs.wf(),
+        // run 1 and run 2: the same pipeline, any results the contracts of compose / tensor / partial_dagger allow
+        is_pushout(fwd, fi, c1) && is_pushout(fwd2, fi, c1p) && c1.wf() && c1p.wf() && fwd.t.table@.len() == fi.s.table@.len(),
+        is_tensor(l1, c1, irb) && is_tensor(l1p, c1p, irb),
+        is_pushout(rc, rev, d1) && is_pushout(rc, rev2, d1p) && d1.wf() && d1p.wf() && rc.t.table@.len() == rev.s.table@.len(),
+        is_tensor(r1, ifb, d1) && is_tensor(r1p, ifb, d1p),
+        is_pushout(l1, r1, c) && is_pushout(l1p, r1p, cp) && c.wf() && cp.wf() && l1.t.table@.len() == r1.s.table@.len(),
+        is_partial_dagger(d, c, na, nb, ma, mb) && is_partial_dagger(dp, cp, na, nb, ma, mb),
+        0 <= na && 0 <= nb && 0 <= ma && 0 <= mb && c.s.table@.len() == na + mb && c.t.table@.len() == nb + ma,
+        is_pushout(lhs, d, e) && is_pushout(lhs, dp, ep) && e.wf() && ep.wf() && lhs.t.table@.len() == d.s.table@.len(),
+        is_pushout(e, rhs, o) && is_pushout(ep, rhs, op) && e.t.table@.len() == rhs.s.table@.len(),
+        // machine arithmetic
+        fwd.h.w@.len() + fi.h.w@.len() + irb.h.w@.len() + ifb.h.w@.len() + rc.h.w@.len() + rev.h.w@.len() + lhs.h.w@.len() + rhs.h.w@.len() <= usize::MAX,
+    ensures node_iso(o, op, psi)
+{
+    lemma_node_iso_refl(fi); lemma_node_iso_refl(rc); lemma_node_iso_refl(ifb); lemma_node_iso_refl(irb); lemma_node_iso_refl(lhs); lemma_node_iso_refl(rhs);
+    let p1 = lemma_compose_iso_both(fwd, fwd2, fi, fi, c1, c1p, al, id_seq(fi.h.w@.len() as int));
+    // sizes of composites are at most the sum of the parts
+    let (qa, ka) = choose|q: Seq<usize>, k: int| is_coeq(q, k, glue_left(fwd), glue_right(fwd, fi), (fwd.h.w@.len() + fi.h.w@.len()) as int) && #[trigger] is_quotient_of_jux(fwd, fi, c1, q, k);
+    if fwd.h.w@.len() + fi.h.w@.len() == 0 && ka > 0 { assert(hit(qa, 0, 0)); }
+    if ka > fwd.h.w@.len() + fi.h.w@.len() { lemma_surjection_small(qa, ka, (fwd.h.w@.len() + fi.h.w@.len()) as int); }
+    let p2 = lemma_tensor_iso(c1, c1p, irb, irb, l1, l1p, p1, id_seq(irb.h.w@.len() as int));
+    let p3 = lemma_compose_iso_both(rc, rc, rev, rev2, d1, d1p, id_seq(rc.h.w@.len() as int), be);
+    let (qb, kb) = choose|q: Seq<usize>, k: int| is_coeq(q, k, glue_left(rc), glue_right(rc, rev), (rc.h.w@.len() + rev.h.w@.len()) as int) && #[trigger] is_quotient_of_jux(rc, rev, d1, q, k);
+    if rc.h.w@.len() + rev.h.w@.len() == 0 && kb > 0 { assert(hit(qb, 0, 0)); }
+    if kb > rc.h.w@.len() + rev.h.w@.len() { lemma_surjection_small(qb, kb, (rc.h.w@.len() + rev.h.w@.len()) as int); }
+    let p4 = lemma_tensor_iso(ifb, ifb, d1, d1p, r1, r1p, id_seq(ifb.h.w@.len() as int), p3);
+    let p5 = lemma_compose_iso_both(l1, l1p, r1, r1p, c, cp, p2, p4);
+    let (qc, kc) = choose|q: Seq<usize>, k: int| is_coeq(q, k, glue_left(l1), glue_right(l1, r1), (l1.h.w@.len() + r1.h.w@.len()) as int) && #[trigger] is_quotient_of_jux(l1, r1, c, q, k);
+    if l1.h.w@.len() + r1.h.w@.len() == 0 && kc > 0 { assert(hit(qc, 0, 0)); }
+    if kc > l1.h.w@.len() + r1.h.w@.len() { lemma_surjection_small(qc, kc, (l1.h.w@.len() + r1.h.w@.len()) as int); }
+    lemma_partial_dagger_iso(c, cp, d, dp, na, nb, ma, mb, p5);
+    let p6 = lemma_compose_iso_both(lhs, lhs, d, dp, e, ep, id_seq(lhs.h.w@.len() as int), p5);
+    let (qd, kd) = choose|q: Seq<usize>, k: int| is_coeq(q, k, glue_left(lhs), glue_right(lhs, d), (lhs.h.w@.len() + d.h.w@.len()) as int) && #[trigger] is_quotient_of_jux(lhs, d, e, q, k);
+    if lhs.h.w@.len() + d.h.w@.len() == 0 && kd > 0 { assert(hit(qd, 0, 0)); }
+    if kd > lhs.h.w@.len() + d.h.w@.len() { lemma_surjection_small(qd, kd, (lhs.h.w@.len() + d.h.w@.len()) as int); }
+    let p7 = lemma_compose_iso_both(e, ep, rhs, rhs, o, op, p6, id_seq(rhs.h.w@.len() as int));
+    p7
 }
 ''')
